@@ -125,7 +125,16 @@ def twins(g, seed):
                     continue
                 kw2[k] = dy(rng)
             if kw2 != kw:
-                out.append((i, kind, kw2, margs_of(kind, kw2)))
+                out.append((i, kind, kw2, margs_of(kind, kw2), None))
+        # the same parameters once more, through a configuration object whose fields are changed after construction (sizes and costs alike)
+        mut = {}
+        for k, v in kw.items():
+            if isinstance(v, bool) or isinstance(v, str) or isinstance(v, tuple):
+                continue
+            mut[k] = (v + 1) if isinstance(v, int) else (v + 1.5)
+        if kind == "forest":
+            mut.pop("p", None)
+        out.append((i, kind, dict(kw), margs_of(kind, kw), mut))
     return out
 
 
